@@ -230,6 +230,7 @@ func (q *queueCtx) norm(e ast.Expr) string {
 func (q *queueCtx) config() paths.Config {
 	info := q.fi.Pkg.TypesInfo
 	in := newInliner(q.p, q.fi, nil)
+	in.hoistEffects = true
 	return paths.Config{
 		Info:   info,
 		Inline: in.Body,
@@ -265,6 +266,15 @@ func (q *queueCtx) config() paths.Config {
 								out = append(out, paths.Event{Kind: "SETCAP", Arg: q.norm(l), Pos: as.Pos()})
 							}
 						}
+					}
+				}
+			}
+			// assignments to a named result: what `return result` hands back is the last of them on the
+			// path (or the zero value when there is none)
+			if as, ok := n.(*ast.AssignStmt); ok && len(as.Lhs) == len(as.Rhs) {
+				for i, l := range as.Lhs {
+					if id, ok := ast.Unparen(l).(*ast.Ident); ok && isNamedResult(q.p, info.ObjectOf(id)) {
+						out = append(out, paths.Event{Kind: "RES", Arg: id.Name + "=" + q.norm(as.Rhs[i]), Pos: as.Pos(), Node: as.Rhs[i]})
 					}
 				}
 			}
@@ -326,6 +336,9 @@ func (q *queueCtx) config() paths.Config {
 				return true
 			})
 			ast.Inspect(n, func(m ast.Node) bool {
+				if hc, isCall := m.(*ast.CallExpr); isCall && in.hoisted[hc] && !isHoistDef(n, hc) {
+					return false // evaluated (and recorded) in front of the helper it is an argument of
+				}
 				switch v := m.(type) {
 				case *ast.FuncLit:
 					return false
@@ -719,7 +732,7 @@ func c11PutForce(r *core.Report, name, pos string, ps []paths.Path, q string) {
 				}
 				if !rep && !nilPath {
 					ok = false
-					why = append(why, "an evicted element is not handed to the overflow callback")
+					why = append(why, "an evicted element is not handed to the overflow callback: "+pa.String())
 				}
 			}
 			if e.Kind == "OVERFLOWED" {
@@ -1022,6 +1035,50 @@ func (q *queueCtx) resolveRetvals(ps []paths.Path) {
 				e.Arg = fmt.Sprint(b)
 			}
 		}
+		// `return result` of a named result: the value it was last given on this path, else its zero value
+		for i := range pa {
+			e := &pa[i]
+			if e.Kind != "RETVAL" {
+				continue
+			}
+			var rid *ast.Ident
+			var robj types.Object
+			if q.fi.Decl.Type.Results != nil {
+				for _, f := range q.fi.Decl.Type.Results.List {
+					for _, n := range f.Names {
+						if n.Name == e.Arg || (e.Arg == "" && len(f.Names) == 1) {
+							rid, robj = n, info.Defs[n]
+						}
+					}
+				}
+			}
+			if rid == nil || robj == nil {
+				continue
+			}
+			val := ""
+			for j := i - 1; j >= 0; j-- {
+				if pa[j].Kind == "RES" && strings.HasPrefix(pa[j].Arg, rid.Name+"=") {
+					val = strings.TrimPrefix(pa[j].Arg, rid.Name+"=")
+					break
+				}
+			}
+			if val == "" {
+				switch t := robj.Type().Underlying().(type) {
+				case *types.Basic:
+					switch {
+					case t.Info()&types.IsBoolean != 0:
+						val = "false"
+					case t.Info()&types.IsNumeric != 0:
+						val = "0"
+					}
+				default:
+					val = "nil"
+				}
+			}
+			if val != "" {
+				e.Arg = val
+			}
+		}
 		// `return v` with v known to be nil on this path (v, _ := take() took the empty way out)
 		for i := range pa {
 			e := &pa[i]
@@ -1133,4 +1190,11 @@ func c11Ctors(p *core.Program, r *core.Report) {
 			fileProbs(r, "C11.ctor", "util/queue."+fi.Obj.Name(), p.Pos(fi.Decl.Pos()), uniq(probs), fmt.Sprintf("%d capacity field(s) set from the caller's values unchanged", sets))
 		}
 	}
+}
+
+
+// isHoistDef: n is the temporary's definition `zzargN := call` itself.
+func isHoistDef(n ast.Node, call *ast.CallExpr) bool {
+	as, ok := n.(*ast.AssignStmt)
+	return ok && len(as.Rhs) == 1 && as.Rhs[0] == ast.Expr(call)
 }
